@@ -291,6 +291,9 @@ def run(ctx) -> None:
     ctx.rule("C07.R8-stored-is-instance-output", "what is dumped to flowir_instance.yaml is the dictionary returned by instance(), passed "
              "only through key-preserving functions (pretty_flowir_sort, copies): no lossy transformation (e.g. dropping "
              "empty lists, which are real values that shadow an inherited list) between the two")
+    ctx.rule("C07.R13-stored-description-is-never-absent", "the writers of conf/flowir_instance.yaml and conf/manifest.yaml never remove the file they are "
+             "about to replace: while it is absent (a fault, or simply another load during the window) a reload silently falls back to the package "
+             "and every loop iteration instantiated so far is gone (the C14 write-discipline analysis re-used)")
     ctx.rule("C07.R7-flattening-keeps-scope-precedence", "for every way a variable name can be defined in the default/platform x "
              "global/stage scopes, the single-platform description written by instance() lets the same scope win as "
              "get_component_variables does on the live multi-platform description")
@@ -550,3 +553,22 @@ def run(ctx) -> None:
     ok = any(isinstance(n.ast.value, ast.Call) and last_attr(n.ast.value) == "copy" and "_concrete" in source.src(n.ast.value) for n in copyn)
     ctx.ob("C07.R6-patch-before-store", copyn[0].ast, ok, "the unreplicated description is a copy of the patched concrete" if ok else
            "self._unreplicated is no longer a copy of the patched self._concrete")
+
+    # ---------------- R13: the stored description is never absent -------------------------------------
+    from checks import c14
+    from vlib.report import Ctx as _Ctx
+    sub_ctx = _Ctx("C14", ctx.tier, ctx.repo)
+    for (rel_, q_, lab_) in c14.WRITERS:
+        if rel_ == c14.CONF:
+            c14.check_writer(sub_ctx, ctx.repo.module(rel_), ctx.repo.module(rel_).func(q_), lab_)
+    n13 = 0
+    for o in sub_ctx.obligations:
+        if o["rule"] in ("C14.A5-destination-never-removed", "C14.A1-temp-then-rename"):
+            o2 = dict(o)
+            o2["rule"] = "C07.R13-stored-description-is-never-absent"
+            o2["what"] = "[%s] %s" % (o["rule"], o["what"]) + ("" if o["ok"] else
+                          " - configurationForExperiment(is_instance=True) then loads the PACKAGE: the components of every DoWhile iteration after 0 are missing")
+            ctx.obligations.append(o2)
+            n13 += 1
+    ctx.functions_analysed |= sub_ctx.functions_analysed
+    ctx.floor("C07.R13-stored-description-is-never-absent", n13, 3, "write-discipline obligations of the two conf/ writers re-used from the C14 analysis")
